@@ -181,6 +181,30 @@ language / type names of the crate only, never the body of a particular function
                                          The theorems prove `= Some v` for every fuel above a stated bound, i.e. that the Rust loop TERMINATES
                                          and returns v.  A guard (`if c { return / panic! }`) in such a function and a call of such a function
                                          from translated code are errors.
+Added for the byte / hex decoders and the primitive constructors (src/uint/encoding.rs, src/uint/from.rs, src/odd.rs; constructs of the
+language / type names of the crate / functions of core only, never the body of a particular function):
+  &[u8]                                  a slice of bytes: list Z (type `bslice`); x[i] : u8; x.len()
+  &str READ by the body                  a `&str` parameter that the parsed body mentions (the text of the dropped `assert!` / `panic!`
+                                         messages is not part of it) is the list of its UTF-8 bytes (type `bstr`, list Z): s.as_bytes() is the
+                                         identity and has type &[u8]; s.len(); it may be passed on to a function whose parameter is again
+                                         such a `&str`.  A `&str` parameter that is never read stays erased (unit) as before; a string
+                                         LITERAL is still `tt : unit`, so passing one where the bytes are read is a type error
+  [e; K], K a literal or `Limb::BYTES`   `[0u8; Limb::BYTES]`: an array of machine integers of LITERAL length ([T; k], list Z): (repeat e k%nat);
+                                         `Limb::BYTES` is the usize 8 on the 64-bit target (like `Limb::BITS` = 64); `[e; LIMBS]` as before
+  Word::from_be_bytes(a), u64:: / u32:: / u16:: / u128::from_be_bytes / from_le_bytes
+                                         core's conversions of a [u8; N/8] array (the argument must have exactly that type):
+                                         from_be_bytes_ a / from_le_bytes_ a of SrcPrelude = the positional value in base 256, most / least
+                                         significant byte first
+  `while j < Limb::BYTES { .. }`         a bound that is a constant: the general counted loop, Nat.iter (Z.to_nat (8 - v_j))
+  `let mut err = 0;` first used two loops down (`err |= byte_err`)   typed by that use, as before
+  U64::f(..), U128::f(..), U<bits>::f(..)   a function of `impl<const LIMBS: usize> Uint<LIMBS>` called through a type alias of the crate: an entry
+                                         `(U<bits>, <bits>, ..)` of an `impl_uint_aliases!` invocation in src/uint.rs (read from the source)
+                                         declares `pub type U<bits> = Uint<{ nlimbs!(<bits>) }>`, i.e. Uint<k> with k = ceil(bits / 64): the
+                                         callee's const generic is k (passed as `k%nat`), parameter / return types are read at that instance
+  x.limbs of a Uint<k>, a.len(), a[i] with a : [Limb; k], k a literal
+                                         the limb array of literal length; `.len()` is the usize k; a[i] -> nth (Z.to_nat i) a 0 : Limb
+  (the hex decoders end in `assert!(err == 0, ..)`, which is dropped like every assertion: the proof file restates the loop, checks by
+   reflexivity that it is the generated text, and states the theorems about its `err` component)
 Anything else is a translation error: the function is emitted as an ill-typed stub so that its equality proof fails
 (reported as a broken proof obligation of the properties that rest on it), never silently skipped.
 """
@@ -271,7 +295,7 @@ BITS = {'u8': 8, 'u16': 16, 'u32': 32, 'u64': 64, 'u128': 128, 'choice': 64, 'li
 SBITS = {'i8': 8, 'i16': 16, 'i32': 32, 'i64': 64, 'i128': 128}     # signed machine integers: a Z in [-2^(w-1), 2^(w-1))
 STRUCTS = {'Reciprocal': [('divisor_normalized', 'u64'), ('shift', 'u32'), ('reciprocal', 'u64')]}
 
-LISTS = ('arr', 'slice', 'int', 'warr', 'unsat', 'wslice')      # all `list Z` in Coq; they differ in the methods / element type they have
+LISTS = ('arr', 'slice', 'int', 'warr', 'unsat', 'wslice', 'bslice', 'bstr')      # all `list Z` in Coq; they differ in the methods / element type they have
 FILE_ALIASES = [{}]  # `type NAME = T;` items of the source file of the function being translated
 WRAPPERS = ('NonZero', 'Odd')                # struct NonZero<T>(T), struct Odd<T>(T): erased newtypes, `.0` gives the T
 CG = [None]          # name of the const generic of the free function being translated (`fn f<const L: usize>`); None: LIMBS
@@ -301,6 +325,8 @@ def parse_type(s, selfty):
         return 'warr'
     if re.fullmatch(r'\[\s*(Word|u64)\s*\]', s):
         return 'wslice'         # &[Word] / &[u64]: a slice of words
+    if re.fullmatch(r'\[\s*u8\s*\]', s):
+        return 'bslice'         # &[u8]: a slice of bytes
     if re.fullmatch(r'UnsatInt\s*<\s*%s\s*>' % g, s):
         return 'unsat'          # struct UnsatInt<LIMBS>(pub [u64; LIMBS])
     if re.fullmatch(r'Int\s*<\s*%s\s*>' % g, s):
@@ -743,7 +769,15 @@ CONSTS = {('Word', 'BITS'): ('64', 'u32'), ('WideWord', 'BITS'): ('128', 'u32'),
           ('ConstChoice', 'FALSE'): ('0', 'choice'), ('ConstChoice', 'TRUE'): ('(2 ^ 64 - 1)', 'choice'),
           ('Limb', 'ZERO'): ('0', 'limb'), ('Limb', 'ONE'): ('1', 'limb'), ('Limb', 'MAX'): ('(2 ^ 64 - 1)', 'limb'),
           ('Word', 'ZERO'): ('0', 'u64'), ('Word', 'MIN'): ('0', 'u64'), ('u64', 'MAX'): ('(2 ^ 64 - 1)', 'u64')}
+CONSTS[('Limb', 'BYTES')] = ('8', 'u64')           # pub const BYTES: usize = 8 (64-bit target), like Limb::BITS above
 ARR_CONSTS = {'ZERO': '(repeat 0 LIMBS)', 'MAX': '(repeat (2 ^ 64 - 1) LIMBS)'}
+
+def const_len(e):
+    """the value of an array-length expression that is a literal or a usize constant of the crate with a known value, else None"""
+    if e[0] == 'num' and e[2] in (None, 'usize'): return e[1]
+    if e[0] == 'path' and tuple(e[1][-2:]) in CONSTS and CONSTS[tuple(e[1][-2:])][1] == 'u64' and CONSTS[tuple(e[1][-2:])][0].isdigit():
+        return int(CONSTS[tuple(e[1][-2:])][0])
+    return None
 
 def fv(e, acc):
     """variables read by an expression"""
@@ -774,6 +808,22 @@ def mutrefs(e, acc):
     return acc
 
 REPO = ['/repo']
+_UA = {}
+def uint_alias(name):
+    """the limb count k of a type alias `U<bits>` of the crate: an entry `(U<bits>, <bits>, ..)` of an `impl_uint_aliases!` invocation in
+    src/uint.rs declares `pub type U<bits> = Uint<{ nlimbs!(<bits>) }>`, nlimbs!(b) = ceil(b / Limb::BITS) = ceil(b / 64); None if there is
+    no such entry"""
+    if not _UA:
+        _UA[''] = None
+        try:
+            src = open(os.path.join(REPO[0], 'src', 'uint.rs')).read()
+        except OSError:
+            src = ''
+        for m in re.finditer(r'impl_uint_aliases!\s*\{(.*?)\n\}', src, re.S):
+            for n, b in re.findall(r'\(\s*(U\d+)\s*,\s*(\d+)\s*,', m.group(1)):
+                _UA[n] = (int(b) + 63) // 64
+    return _UA.get(name)
+
 _WM = {}
 def wrapper_methods(w):
     """names of all functions defined in ANY impl block (inherent or trait) of the wrapper type w (NonZero / Odd) in the crate:
@@ -946,6 +996,13 @@ class Emitter:
                 return '(%s %s %s)' % ('div_' if op == '/' else 'rem_', a, b), t      # unsigned; a zero divisor panics in Rust
             raise TErr('operator %s' % op)
         if k == 'repeat':
+            klen = const_len(e[2])
+            if klen is not None:
+                # `[e; K]` with K a literal or a usize constant of the crate with a known value (`Limb::BYTES`): [T; k], T a machine integer
+                want = exp[1] if isinstance(exp, tuple) and exp[0] == 'fixarr' and not isinstance(exp[1], tuple) else None
+                c, t = self.emit(e[1], env, want)
+                if not (t in ('u8', 'u16', 'u32', 'u64', 'u128') or t in SBITS): raise TErr('array of %s with a literal length' % (t,))
+                return '(repeat %s %d%%nat)' % (c, klen), ('fixarr', t, klen)
             if e[2] != ('var', cgname()): raise TErr('array length must be %s' % cgname())
             if e[1][0] == 'num' and e[1][2] is None and exp in (None, 'warr'):
                 # `[0; LIMBS]`: a bare integer literal is not a Limb, this is an array of words
@@ -979,16 +1036,19 @@ class Emitter:
         if k == 'index':
             c, t = self.emit(e[1], env, None)
             fix = isinstance(t, tuple) and t[0] == 'fixarr'
-            if t not in ('arr', 'slice', 'warr', 'wslice') and not fix: raise TErr('indexing a %s' % (t,))
+            if isinstance(t, tuple) and t[0] == 'arrk': t = 'arr'         # [Limb; k] with a literal k: an element is a Limb
+            if t not in ('arr', 'slice', 'warr', 'wslice', 'bslice') and not fix: raise TErr('indexing a %s' % (t,))
             ic, it = self.emit(e[2], env, 'u64')
             if it != 'u64': raise TErr('index of type %s' % (it,))
             if fix and isinstance(t[1], tuple):
                 return '(nth (Z.to_nat %s) %s nil)' % (ic, c), t[1]          # an array of arrays: the element is a list
-            return '(nth (Z.to_nat %s) %s 0)' % (ic, c), (t[1] if fix else 'u64' if t in ('warr', 'wslice') else 'limb')
+            return '(nth (Z.to_nat %s) %s 0)' % (ic, c), (t[1] if fix else 'u64' if t in ('warr', 'wslice') else 'u8' if t == 'bslice' else 'limb')
         if k == 'field':
             c, t = self.emit(e[1], env, None)
             if t == 'arr' and e[2] == 'limbs':
                 return c, 'arr'
+            if isinstance(t, tuple) and t[0] == 'arrk' and e[2] == 'limbs':
+                return c, t                     # the limbs of a Uint<k> with a literal k: [Limb; k]
             if t in ('choice', 'limb') and e[2] == '0':
                 return c, 'u64'
             if t == 'int' and e[2] == '0':
@@ -1067,6 +1127,16 @@ class Emitter:
                 for a, pt in zip(e[2], ptys):
                     c, t = self.emit(a, env, pt); self.unify(t, pt, 'argument of ' + path[0]); parts.append(c)
                 return '(v_%s %s)' % (path[0], ' '.join(parts)), rty
+            if len(path) == 2 and path[1] in ('from_be_bytes', 'from_le_bytes') and len(e[2]) == 1 and \
+                    ALIAS.get(path[0], path[0]) in ('u16', 'u32', 'u64', 'u128') and path[0] != 'usize':
+                # uN::from_be_bytes([u8; N/8]) / from_le_bytes of core: the positional value of the bytes
+                ty = ALIAS.get(path[0], path[0]); want = ('fixarr', 'u8', BITS[ty] // 8)
+                c, t = self.emit(e[2][0], env, want)
+                self.unify(t, want, 'argument of %s::%s' % (path[0], path[1]))
+                return '(%s_ %s)' % (path[1], c), ty
+            if len(path) == 2 and re.fullmatch(r'U\d+', path[0]) and uint_alias(path[0]) is not None:
+                # `U64::from_u64(x)`: a function of `impl<const LIMBS: usize> Uint<LIMBS>` called through a type alias of the crate
+                return self.call_at('Uint<LIMBS>::' + path[1], e[2], env, uint_alias(path[0]))
             return self.call(self.callkey(path), e[2], env)
         if k == 'mcall':
             c, t = self.emit(e[1], env, exp if e[2].startswith('wrapping_') else None)
@@ -1108,8 +1178,12 @@ class Emitter:
                 return self.call('Int<LIMBS>::' + name, [('raw', c, t)] + e[3], env)
             if t == 'unsat':
                 return self.call('UnsatInt<LIMBS>::' + name, [('raw', c, t)] + e[3], env)
-            if t in ('slice', 'wslice') and name == 'len' and not e[3]:
+            if t in ('slice', 'wslice', 'bslice', 'bstr') and name == 'len' and not e[3]:
                 return '(Z.of_nat (length %s))' % c, 'u64'      # a usize
+            if isinstance(t, tuple) and t[0] == 'arrk' and name == 'len' and not e[3]:
+                return str(t[1]), 'u64'                         # [Limb; k].len() with a literal k: the usize k
+            if t == 'bstr' and name == 'as_bytes' and not e[3]:
+                return c, 'bslice'                              # s.as_bytes(): the UTF-8 bytes of the string, which is what a `bstr` is
             if isinstance(t, tuple) and t[0] == 'wrap':
                 # NonZero<T> / Odd<T>: a method of the impl block spelled like the value's type (`impl<const LIMBS: usize>
                 # NonZero<Int<LIMBS>>`); else, if NO impl block of the wrapper anywhere in the crate defines a function of that
@@ -1235,6 +1309,20 @@ class Emitter:
             raise TErr('call of the generic function %s: the const generic cannot be inferred' % key)
         if tv is not None: rty = subst_T(rty, tv)
         return '(%s %s)' % (cname, ' '.join(parts)), rty
+    def call_at(self, key, args, env, k):
+        """a function of `impl<const LIMBS: usize> Uint<LIMBS>` at the literal limb count k (called through a type alias of the crate,
+        `U64::from_u64(x)` with U64 = Uint<1>): the const generic is k, parameter and return types are read at that instance"""
+        if key not in self.sigs: raise TErr('call to untranslated function %s' % key)
+        if MUTS.get(key) or key in EXT_USERS: raise TErr('call of %s through a type alias' % key)
+        cname, ptys, rty = self.sigs[key]
+        if isinstance(rty, tuple) and rty[0] == 'option': raise TErr('call of %s, whose body has a `loop`' % key)
+        if len(ptys) != len(args): raise TErr('arity of %s' % key)
+        parts = ['%d%%nat' % k]
+        for a, pt in zip(args, ptys):
+            pt = subst_len(pt, k)
+            c, t = self.emit(a, env, pt)
+            self.unify(t, pt, 'argument of ' + key); parts.append(c)
+        return '(%s %s)' % (cname, ' '.join(parts)), subst_len(rty, k)
     # ---- statements
     def pat(self, p, t, env):
         if p[0] == 'id':
@@ -1646,6 +1734,14 @@ def translate(src, name, cname, impl, sigs, trait=None, extern=False):
             if ty != 'slice': raise TErr('&mut parameter of type %s' % (ty,))
             muts.append(m.group(1))
         ps.append((m.group(1), ty))
+    if any(t == 'str' for _, t in ps) and not extern:
+        # a `&str` parameter that the body READS (outside the dropped `assert!` / `panic!` messages) is the list of its UTF-8 bytes
+        # (`bstr`); one that only occurs in such messages (or nowhere) stays erased
+        try:
+            read = fv(P(lex(body), cg or 'LIMBS').block(), set())
+        except (TErr, IndexError):
+            read = set()
+        ps = [(n, 'bstr' if t == 'str' and n in read else t) for n, t in ps]
     rty = parse_type(ret, selfty) if ret else ('tuple', [])
     del EXTRA_CG[:]
     return ps, rty, body, selfty, muts, cg
